@@ -78,7 +78,10 @@ type Obl struct {
 	Inputs  []string
 	enc     *FnEnc
 	Trivial bool // cond folded to true syntactically
+	Parts   []oblPart // optional split: the obligation holds iff every part does (solved separately)
 }
+
+type oblPart struct{ PC, Cond string }
 
 type unsupported struct{ msg string }
 
@@ -109,6 +112,7 @@ type FnEnc struct {
 	rawUsed  map[string]bool
 	fbits    map[string]string
 	heapTouch int
+	subOf    map[string][2]string // substring term -> (string it was cut from, offset)
 	gaddrs   map[string]bool
 	stableGlobals map[string]bool
 	specApps map[string]bool
@@ -147,7 +151,9 @@ type frame struct {
 	curLoop  *loopInfo
 	defers   []deferRec
 	throws   []throwRec
-	variants map[int]string
+	variants map[int][]string
+	variantBounds map[int][]string
+	headHeaps map[int]Heap // heap at the head of loop k (current iteration), for athead(k, e)
 	locals   []localAlloc // non-escaping allocations: untouched by callees and havocs
 	ghostRetTypes map[int]types.Type
 	calleePure string     // condition under which the call being applied is pure
@@ -229,7 +235,7 @@ func (e *FnEnc) typeInv(term string, t types.Type, depth int) string {
 	switch u := t.Underlying().(type) {
 	case *types.Basic:
 		if u.Info()&types.IsString != 0 {
-			return fmt.Sprintf("(bvsle #x0000000000000000 (slen %s))", term)
+			return fmt.Sprintf("(and (bvsle #x0000000000000000 (slen %s)) (bvsle (slen %s) #x000000ffffffffff))", term, term)
 		}
 	case *types.Slice:
 		return and(
@@ -1079,6 +1085,11 @@ func (f *frame) loopHead(li *loopInfo) {
 		c := f.evalContractBool(inv, f.curHeap, nil, nil)
 		f.assume(c)
 	}
+	// snapshot of the state at the head of this iteration: athead(k, e) in inner invariants
+	if f.headHeaps == nil {
+		f.headHeaps = map[int]Heap{}
+	}
+	f.headHeaps[li.ord] = f.curHeap.clone()
 	// decreases: remember the variant value at the head
 	f.recordVariant(li)
 }
